@@ -105,6 +105,15 @@
 #undef handler_ctx
 
 #include <sys/socket.h>
+#include <signal.h>
+
+/* watchdog: a case that does not finish (a loop that stopped making progress) is a crash result */
+static void on_alarm(int sig) {
+    UNUSED(sig);
+    static const char msg[] = "h_cgi: case did not terminate within 120 s (livelock)\n";
+    if (write(2, msg, sizeof(msg)-1) < 0) {}
+    _exit(97);
+}
 
 enum { F_AUTH = 1, F_BREAKPHP = 2, F_FIXROOT = 4, F_CHECKLOCAL = 8, F_HTTPS = 16, F_ERRSAVED = 32,
        F_H2 = 64, F_H2EXT = 128, F_UPGRADE = 256, F_TEMPFILES = 512, F_STREAM = 1024, F_HTTP10 = 2048 };
@@ -501,7 +510,9 @@ int main(void) {
     gwp_scgi.id = 1; gwp_scgi.self = &pl_scgi;
     gwp_proxy.id = 2; gwp_proxy.self = &pl_proxy;
 
+    signal(SIGALRM, on_alarm);
     while (ltv_next()) {
+        alarm(120);
         if (ltv_ntok < 1) { puts("bad-op"); continue; }
         const char *op = ltv_tok[0];
         if (0 == strcmp(op, "parse") && ltv_ntok == 4) {
